@@ -101,10 +101,11 @@ PROPS = {
     ),
     "C19": dict(
         cases_mod="CasesTz", check_fn="check_C19", shard=60,
-        rule="structure-aware mutations of valid synthesized files: every header count field x {0, 1, +1, -1, 2^31, 2^32-1, 255, 256} in either header, truncation at a random point, transition type index values {0,1,5,6,7,127,128,255}, version byte sweep, random byte flips, single-edit footer mutations over a POSIX-TZ alphabet, plus 48 hand-written hostile footers (month 0/13, week 0/6, day 7, J0, J366, 366, 365 in common years, 20-digit numbers, missing parts, over-range times, invalid UTF-8) on skeletons with and without transitions; lookups at 16 timestamps incl. both ends of the DateTime range. Outcome class (error / offsets / panic) compared with the model. Non-trivial: every case.",
+        extra_rows_cmd=["python3", "lib/local_glue.py", "{bin}", "{tier}"],
+        rule="structure-aware mutations of valid synthesized files: every header count field x {0, 1, +1, -1, 2^31, 2^32-1, 255, 256} in either header, truncation at a random point, transition type index values {0,1,5,6,7,127,128,255}, version byte sweep, random byte flips, single-edit footer mutations over a POSIX-TZ alphabet, plus 48 hand-written hostile footers (month 0/13, week 0/6, day 7, J0, J366, 366, 365 in common years, 20-digit numbers, missing parts, over-range times, invalid UTF-8) on skeletons with and without transitions; lookups at 16 timestamps incl. both ends of the DateTime range. Outcome class (error / offsets / panic) compared with the model. Plus Offset::Local.resolve() itself with valid zone files and hostile contents bind-mounted over /etc/localtime in a private mount namespace (op tz_local; skipped where unshare is unavailable). Non-trivial: every case.",
         explanation="Theorems of props/C19.v: no panic in the parser for any byte string, no panic in lookups on any accepted file (see file header).",
         trusted_base=TB_COMMON + ["hook H2 (cargo feature astrolabe_verif): tzif_offsets(bytes, timestamps)"],
-        assumptions=ASSUME_COMMON + ["usize is 64 bits (length products cannot overflow)", "the Offset::Local -> /etc/localtime glue is modelled as resolve_local (file result, clock) and exercised in a mount namespace by the thorough tier"],
+        assumptions=ASSUME_COMMON + ["usize is 64 bits (length products cannot overflow)", "the Offset::Local -> /etc/localtime glue is modelled as resolve_local (file result, clock) and exercised in a private mount namespace by both tiers when unshare is available"],
     ),
     "C11": dict(
         cases_mod="CasesText", check_fn="check_C11", shard=200,
